@@ -504,6 +504,10 @@ package rockredis
 //@   loop 2
 //@   invariant stop + 1 <= i && i <= llen
 
+// a store as the apply loop hands it to a command: opened, and the shared write batch is empty
+// (ApplyRaftRequest commits or aborts the batch before every non-batchable command)
+//@ spec dbReady(db *RockDB) bool = db != nil && db.wb != nil && db.indexMgr != nil && db.rockEng != nil && ghost(wbputs, db.wb) == 0 && ghost(wbdels, db.wb) == 0 && ghost(kvlen, db) >= 0
+
 // ---- string (KV) read-modify-write commands ----
 // ghost(kvexpired, db) / ghost(kvlen, db): whether the stored value of the key being written is expired (at the
 // log timestamp) and the length of its user data (0 when absent)
@@ -720,3 +724,18 @@ package rockredis
 //@   loop 1
 //@   invariant 0 <= i && i <= len(args) && num == ghost(hits, db) - old(ghost(hits, db)) && num >= 0 && num <= i
 //@   invariant (len(oldh.UserData) == 0 || len(oldh.UserData) == 8) && storedSize(oldh.UserData) >= 0 && storedSize(oldh.UserData) < 4611686018427387904
+
+//@ property C11
+// node/state_machine.go skips AbortBatch (which clears the shared write batch) exactly for the errors
+// IsNeedAbortError reports false on: such an error must come with an untouched batch, or what the failed command
+// buffered leaks into the next command's write
+//@ func IsNeedAbortError(err error) bool
+//@   inline
+//@ lemma lemmaNoAbortHMset(db *RockDB, ts int64, key []byte, args []common.KVRecord) (error, bool)
+//@   requires db != nil && db.wb != nil && db.indexMgr != nil
+//@   ensures result0 != nil && !result1 ==> ghost(wbputs, db.wb) == old(ghost(wbputs, db.wb)) && ghost(wbdels, db.wb) == old(ghost(wbdels, db.wb))
+//@   modifies *
+//@ lemma lemmaNoAbortHDel(db *RockDB, ts int64, key []byte, args [][]byte) (error, bool)
+//@   requires db != nil && db.wb != nil && db.indexMgr != nil
+//@   ensures result0 != nil && !result1 ==> ghost(wbputs, db.wb) == old(ghost(wbputs, db.wb)) && ghost(wbdels, db.wb) == old(ghost(wbdels, db.wb))
+//@   modifies *
